@@ -901,7 +901,24 @@ func c08Parse(c *Ctx, f *ssa.Function) {
 							}
 							switch core.FieldName(fa) {
 							case "Line":
-								if phi, isPhi := st.Val.(*ssa.Phi); isPhi && phi.Block() == head {
+								// the value is the counter phi plus a constant d (0 when used
+								// before the increment, 1 after it): the number of the k-th
+								// line is start + d + (k-1)*step, which must be k
+								val, d := st.Val, int64(0)
+								for depth := 0; depth < 3; depth++ {
+									bo, isB := val.(*ssa.BinOp)
+									if !isB || bo.Op != token.ADD {
+										break
+									}
+									if k, isK := core.ConstInt(bo.Y); isK {
+										val, d = bo.X, d+k
+									} else if k, isK := core.ConstInt(bo.X); isK {
+										val, d = bo.Y, d+k
+									} else {
+										break
+									}
+								}
+								if phi, isPhi := val.(*ssa.Phi); isPhi && phi.Block() == head {
 									start, step := int64(-1), int64(0)
 									for i, e := range phi.Edges {
 										if k, isK := core.ConstInt(e); isK && !body[head.Preds[i]] {
@@ -909,7 +926,7 @@ func c08Parse(c *Ctx, f *ssa.Function) {
 										}
 									}
 									step, _ = stepOf(phi)
-									okLine = start == 1 && step == 1
+									okLine = start+d == 1 && step == 1 && start >= 0
 								}
 							case "err":
 								okErr = st.Val == ssa.Value(um)
